@@ -91,6 +91,32 @@ Proof.
   intros r Hin. eapply (refs_typedb_sound _ (proj1 C33_std_wellformed)); eassumption.
 Qed.
 
+(* ---- added namespaces of the other kind: MapNamespace (references made up from the keys of a Go map) ----
+   Browse of its Root / Objects node returns exactly the made-up references that match the description, for every
+   description whose reference type recursion ends (fix: before, the description was ignored) *)
+Theorem C33_map_namespace_browse : forall fuel sp ns objects keys node_int bd,
+  sub_refs fuel sp (bd_reftype bd) <> None ->
+  exists l, map_browse fuel sp ns objects keys node_int bd = Ok (StGood, map map_rdesc l) /\
+    (forall r, In r l <-> In r (map_refs ns objects keys node_int) /\ spec_match sp bd r) /\
+    exists f, l = filter f (map_refs ns objects keys node_int).
+Proof.
+  intros fuel sp ns objects keys node_int bd Hf. unfold map_browse. rewrite (map_loop_exact fuel sp bd _ Hf).
+  eexists. split; [reflexivity|]. split; [|eexists; reflexivity].
+  intros r. rewrite filter_In. pose proof (suitable_ref_total fuel sp bd r Hf) as Hn.
+  destruct (suitable_ref fuel sp bd r) as [b|] eqn:E; [|contradiction].
+  pose proof (suitable_ref_spec _ _ _ _ _ E) as HS. destruct b.
+  - split; intros [H1 H2]; (split; [exact H1|]); [now apply HS | reflexivity].
+  - split; intros [H1 H2]; [discriminate|]. apply HS in H2. discriminate.
+Qed.
+
+Example C33_ex_map : (* Objects of a map namespace with two keys: forward HasComponent yes, inverse no, Organizes no *)
+  let sp := Space 3 [] in
+  map_browse 1 sp 2 9000 [9001; 9002] 85 (BD (2, 9000) 0 (0, 47) false 0) =
+    Ok (StGood, [RD 47 true 9001 2 (Some 9001); RD 47 true 9002 2 (Some 9002)]) /\
+  map_browse 1 sp 2 9000 [9001; 9002] 85 (BD (2, 9000) 1 (0, 0) true 0) = Ok (StGood, []) /\
+  map_browse 1 sp 2 9000 [9001; 9002] 85 (BD (2, 9000) 0 (0, 35) false 0) = Ok (StGood, []).
+Proof. vm_compute. repeat split. Qed.
+
 (* the statement is about something: the Server object's hierarchical children, and IncludeSubtypes=false is honoured *)
 Example C33_ex_objects : exists l, browse_one 64 g_std_space (BD (0, 85) 0 (0, 33) true 0) = Ok (StGood, l) /\ l <> [].
 Proof. vm_compute. eexists. split; [reflexivity | discriminate]. Qed.
@@ -104,3 +130,4 @@ Print Assumptions C33_browse_exact.
 Print Assumptions C33_browse_unknown.
 Print Assumptions C33_std_wellformed.
 Print Assumptions C33_std_browse.
+Print Assumptions C33_map_namespace_browse.
